@@ -169,6 +169,21 @@ def check_fields(case, acc, base):
             got = sorted(tuple(sorted(e)) for m in mols for e in m.edges)
             if [sorted(tuple(sorted(e)) for e in m.edges) for m in mols] != [[(0, 1), (1, 2)], [(0, 1)]]:
                 problems.append(('pdb:bonds', 'bonds read back %r' % (got,)))
+    if not problems:
+        # history: the same system object is written again after its atom ids were set in place (reversed order)
+        for mol in system.molecules:
+            n = len(mol)
+            for pos, key in enumerate(list(mol.nodes)):
+                mol.nodes[key]['atomid'] = n - pos
+        written2 = [dict(mol.nodes[k]) for mol in system.molecules for k in sorted(mol.nodes, key=lambda k: mol.nodes[k]['atomid'])]
+        try:
+            mols2 = roundtrip(system, base, fmt)
+            read2 = [dict(mol.nodes[k]) for mol in mols2 for k in mol.nodes]
+            compare_atoms(fmt, written2, read2, problems)
+            if problems:
+                problems[-1] = (problems[-1][0] + '(rewrite)', 'second write after the atom ids were changed in place: ' + problems[-1][1])
+        except Exception as err:   # pylint: disable=broad-except
+            problems.append(('%s:exception(rewrite)' % fmt, 'second write raised %r' % (err,)))
     over = (case['alen'] > (4 if fmt == 'pdb' else 5) or case['rlen'] > (3 if fmt == 'pdb' else 5)
             or len(str(case['resid'])) >= (4 if fmt == 'pdb' else 5) or any(abs(c) >= 99 for c in case['xyz']))
     acc.case(nontrivial=over, outcome=(fmt, tuple(p[0] for p in problems), over),
